@@ -23,6 +23,9 @@ func makeInts(opts ...func(*option[int])) Column {
 					fill[offset>>6] |= 1 << (offset & 0x3f)
 					data[offset] = r.Int()
 				case commit.Merge:
+					if !fill.Contains(offset) {
+						data[offset] = 0 // no value, do not merge with a stale one
+					}
 					fill[offset>>6] |= 1 << (offset & 0x3f)
 					data[offset] = r.SwapInt(opts.Merge(data[offset], r.Int()))
 				case commit.Delete:
@@ -72,6 +75,9 @@ func makeInt16s(opts ...func(*option[int16])) Column {
 					fill[offset>>6] |= 1 << (offset & 0x3f)
 					data[offset] = r.Int16()
 				case commit.Merge:
+					if !fill.Contains(offset) {
+						data[offset] = 0 // no value, do not merge with a stale one
+					}
 					fill[offset>>6] |= 1 << (offset & 0x3f)
 					data[offset] = r.SwapInt16(opts.Merge(data[offset], r.Int16()))
 				case commit.Delete:
@@ -121,6 +127,9 @@ func makeInt32s(opts ...func(*option[int32])) Column {
 					fill[offset>>6] |= 1 << (offset & 0x3f)
 					data[offset] = r.Int32()
 				case commit.Merge:
+					if !fill.Contains(offset) {
+						data[offset] = 0 // no value, do not merge with a stale one
+					}
 					fill[offset>>6] |= 1 << (offset & 0x3f)
 					data[offset] = r.SwapInt32(opts.Merge(data[offset], r.Int32()))
 				case commit.Delete:
@@ -170,6 +179,9 @@ func makeInt64s(opts ...func(*option[int64])) Column {
 					fill[offset>>6] |= 1 << (offset & 0x3f)
 					data[offset] = r.Int64()
 				case commit.Merge:
+					if !fill.Contains(offset) {
+						data[offset] = 0 // no value, do not merge with a stale one
+					}
 					fill[offset>>6] |= 1 << (offset & 0x3f)
 					data[offset] = r.SwapInt64(opts.Merge(data[offset], r.Int64()))
 				case commit.Delete:
@@ -219,6 +231,9 @@ func makeUints(opts ...func(*option[uint])) Column {
 					fill[offset>>6] |= 1 << (offset & 0x3f)
 					data[offset] = r.Uint()
 				case commit.Merge:
+					if !fill.Contains(offset) {
+						data[offset] = 0 // no value, do not merge with a stale one
+					}
 					fill[offset>>6] |= 1 << (offset & 0x3f)
 					data[offset] = r.SwapUint(opts.Merge(data[offset], r.Uint()))
 				case commit.Delete:
@@ -268,6 +283,9 @@ func makeUint16s(opts ...func(*option[uint16])) Column {
 					fill[offset>>6] |= 1 << (offset & 0x3f)
 					data[offset] = r.Uint16()
 				case commit.Merge:
+					if !fill.Contains(offset) {
+						data[offset] = 0 // no value, do not merge with a stale one
+					}
 					fill[offset>>6] |= 1 << (offset & 0x3f)
 					data[offset] = r.SwapUint16(opts.Merge(data[offset], r.Uint16()))
 				case commit.Delete:
@@ -317,6 +335,9 @@ func makeUint32s(opts ...func(*option[uint32])) Column {
 					fill[offset>>6] |= 1 << (offset & 0x3f)
 					data[offset] = r.Uint32()
 				case commit.Merge:
+					if !fill.Contains(offset) {
+						data[offset] = 0 // no value, do not merge with a stale one
+					}
 					fill[offset>>6] |= 1 << (offset & 0x3f)
 					data[offset] = r.SwapUint32(opts.Merge(data[offset], r.Uint32()))
 				case commit.Delete:
@@ -366,6 +387,9 @@ func makeUint64s(opts ...func(*option[uint64])) Column {
 					fill[offset>>6] |= 1 << (offset & 0x3f)
 					data[offset] = r.Uint64()
 				case commit.Merge:
+					if !fill.Contains(offset) {
+						data[offset] = 0 // no value, do not merge with a stale one
+					}
 					fill[offset>>6] |= 1 << (offset & 0x3f)
 					data[offset] = r.SwapUint64(opts.Merge(data[offset], r.Uint64()))
 				case commit.Delete:
@@ -415,6 +439,9 @@ func makeFloat32s(opts ...func(*option[float32])) Column {
 					fill[offset>>6] |= 1 << (offset & 0x3f)
 					data[offset] = r.Float32()
 				case commit.Merge:
+					if !fill.Contains(offset) {
+						data[offset] = 0 // no value, do not merge with a stale one
+					}
 					fill[offset>>6] |= 1 << (offset & 0x3f)
 					data[offset] = r.SwapFloat32(opts.Merge(data[offset], r.Float32()))
 				case commit.Delete:
@@ -464,6 +491,9 @@ func makeFloat64s(opts ...func(*option[float64])) Column {
 					fill[offset>>6] |= 1 << (offset & 0x3f)
 					data[offset] = r.Float64()
 				case commit.Merge:
+					if !fill.Contains(offset) {
+						data[offset] = 0 // no value, do not merge with a stale one
+					}
 					fill[offset>>6] |= 1 << (offset & 0x3f)
 					data[offset] = r.SwapFloat64(opts.Merge(data[offset], r.Float64()))
 				case commit.Delete:
